@@ -53,13 +53,18 @@ Definition client_build (s : shape) : build client_cfg :=
 Record peer := {
   p_presents : bool;   (* sends a certificate *)
   p_chain : bool;      (* it chains to the CONFIGURED CA *)
+  p_host : bool;       (* it chains to a CA of the host's trust store (what crypto/x509 uses when no pool is given) *)
   p_time : bool;       (* now is inside its validity window *)
   p_usage : bool;      (* extended key usage fits the role *)
   p_name : bool        (* (servers) it is valid for the configured name *)
 }.
 
+(* the trust anchor in force: the configured CA when the pool is set from the CA file, else the host's trust store *)
+Definition trusted_by (pool_is_configured_ca : bool) (p : peer) : bool :=
+  if pool_is_configured_ca then p_chain p else p_host p.
+
 Definition verified (pool_is_configured_ca : bool) (p : peer) : bool :=
-  pool_is_configured_ca && p_chain p && p_time p && p_usage p.
+  trusted_by pool_is_configured_ca p && p_time p && p_usage p.
 
 (* crypto/tls server side *)
 Definition server_admits (c : server_cfg) (p : peer) : bool :=
@@ -77,6 +82,9 @@ Definition client_admits (c : client_cfg) (p : peer) : bool :=
 
 Definition good_client_peer (p : peer) : bool := p_presents p && p_chain p && p_time p && p_usage p.
 Definition good_server_peer (p : peer) : bool := p_presents p && p_chain p && p_time p && p_usage p && p_name p.
+(* the same relative to the trust anchor a client shape puts in force (no CA file: the host's trust store) *)
+Definition good_server_peer_for (s : shape) (p : peer) : bool :=
+  p_presents p && trusted_by (sh_ca s) p && p_time p && p_usage p && p_name p.
 
 Definition all_shapes : list shape :=
   flat_map (fun a => flat_map (fun b => flat_map (fun c => map (fun d =>
